@@ -139,6 +139,8 @@ namespace c02
                 }
                 ma.push_back(val(i));
                 steps++;
+                if ((i & 1023) == 0)
+                    mc::tick(); // heartbeat: growing to 70000 one reallocation at a time takes seconds
                 if (A->size() != ma.size() || A->capacity() < A->size())
                 {
                     check(op, *A, ma);
@@ -174,6 +176,7 @@ namespace c02
             ctx(op);
             f(*W, mw);
             steps++;
+            mc::tick();
             if (failed || !check(op, *W, mw))
                 return false;
             ctx("destructor");
@@ -410,6 +413,7 @@ namespace c02
             mc::describe("%s: grow to %zu by %s, then %s around 255..257 and the ends", variant.c_str(), S, grow ? "emplace_back" : "push_back", fn[fam]);
             mc::nontrivial();
             lc.run(S, grow, fam, fam + 1);
+            mc::outcome(mc::fmt("%zu/%d/%d", S, grow, fam));
         }
         else
         {
@@ -418,9 +422,9 @@ namespace c02
             mc::describe("%s: grow to %zu by %s, then every operation family around 255..257, 65535..65537 and the ends", variant.c_str(), S, c % 2 ? "emplace_back" : "push_back");
             mc::nontrivial();
             lc.run(S, c % 2, 0, NF);
+            mc::outcome(mc::fmt("%zu/%d/all", S, c % 2));
         }
         mc::more_cases(lc.steps, lc.steps);
-        mc::outcome(lc.failed ? "failed" : "ok");
     }
     template <class Tr> void register_large_vectors()
     {
